@@ -211,7 +211,8 @@ def run(ctx):
             viol.append({'property': 'C19', 'kind': 'hex-differs-from-plain', 'plain': outA[:5], 'hex': (outB or [])[:5],
                          'witness': {'lines': [b.hex() for _, b in lines], 'encoding': enc}})
         # --- file C: adjacent duplicates collapsed into count prefixes (--prefixcount) vs. expanded plain file D
-        seq = [(k, b) for k, b in lines if k in ('plain', 'hex')]
+        # every kind of line, the undecodable and the bad-hex ones too: the skipped lines are *counted* the same in both forms
+        seq = [(k, b) for k, b in lines if k != 'blank']
         rep = [(k, b, rng.choice([1, 1, 2, 3, 5, 0])) for k, b in seq]      # `0 <password>`: counted zero times
         pc = os.path.join(root, 'c.txt')
         pd = os.path.join(root, 'd.txt')
@@ -224,8 +225,9 @@ def run(ctx):
         outC, nC, eC, errC = real_read(pc, enc, True)
         outD, nD, eD, errD = real_read(pd, enc, False)
         dist['prefixcount'] += 1
-        if errC or errD or outC != outD or nC != nD:
+        if errC or errD or outC != outD or nC != nD or eC != eD:
             viol.append({'property': 'C19', 'kind': 'count-prefix-differs-from-repeats', 'counted': (outC or [])[:6], 'repeated': (outD or [])[:6],
+                         'totals': [nC, nD], 'encoding_errors': [eC, eD],
                          'witness': {'rep': [(b.hex(), n) for _, b, n in rep], 'encoding': enc}})
         if not errC:
             textC = file_text(pc, enc)
